@@ -190,6 +190,100 @@ def r11e(ctx, rep):
                                    "parse_text no longer peeks the cursor for the remainder", [fn.span])
 
 
+def r11g(ctx, rep, rule="R11g"):
+    """token spans end on character boundaries"""
+    from .. import shapes
+    facts = ctx["facts"]
+    rep.rule(rule, "spans stay on character boundaries: every addition that advances a byte offset in the scanner adds either "
+             "(a) len_utf8 of the very character the cursor paired with that offset, (b) len_utf8 of a character constant, or "
+             "(c) a constant k — and then only where exactly k characters were consumed with next() before and each of them "
+             "(after the first, which the dispatcher of lex::scan established) was matched against an ASCII constant, or "
+             "under an is_ascii* test of the paired character. `offset + 1` for an arbitrary character ends the span inside "
+             "a multi-byte character and slicing the source panics.")
+    n = 0
+    for p, f in sorted(facts.fns.items()):
+        if not p.startswith("marwood::lex::") or "::tests::" in p:
+            continue
+        k_in_fn = 0
+        for bb, j, s_ in f.stmts():
+            rv = s_["rv"]
+            if not (rv["k"] == "bin" and rv["op"].startswith("Add") and rv.get("aty") == "usize"):
+                continue
+            a = shapes.shape(f, rv["a"], 5)
+            b = shapes.shape(f, rv["b"], 6)
+            if "Peekable" not in a:
+                continue            # not a cursor offset
+            n += 1
+            k_in_fn += 1
+            key = "%s|%s|advance#%d" % (rule, f.short, k_in_fn)
+            loc = [s_["loc"]]
+            m = re.fullmatch(r"char::methods::<char>::len_utf8\((.*)\)", b)
+            if m:
+                arg = m.group(1)
+                if arg.startswith("c:"):
+                    rep.ok(rule, key, "%s advances by the width of a character constant" % f.short, loc)
+                elif a.endswith(".0") and arg == a[:-2] + ".1":
+                    rep.ok(rule, key, "%s advances the offset by len_utf8 of the character paired with it" % f.short, loc)
+                else:
+                    rep.fail(rule, key, "%s advances an offset by the width of a different character (%s) than the one the cursor "
+                             "paired with it: the span end is not the end of that character" % (f.short, arg[:80]), loc)
+                continue
+            c = op_const(rv["b"])
+            if c is None or c.get("int") is None:
+                rep.fail(rule, key, "%s advances a cursor offset by %s, which is neither a character width nor a constant" % (f.short, b[:80]), loc)
+                continue
+            k = int(c["int"])
+            guards = shapes.dominating_guards(f, bb)
+            ascii_test = any(re.match(r"char::methods::<char>::is_ascii\w*\(", shapes.shape(f, cond, 4)) and taken == "else"
+                             for sbb, cond, taken, t in guards)
+            nexts = [b2 for b2, t in f.calls() if (t.get("fnargs") or "").endswith("as std::iter::Iterator>::next")
+                     and "Peekable" in (t.get("fnargs") or "") and f.dominates(b2, bb)]
+            matched = []
+            for sb in sorted(f.dominators().get(bb, set())):
+                t = f.blocks[sb]["term"]
+                if t["k"] != "switch" or t.get("opty") != "char" or sb == bb:
+                    continue
+                vals = [v for v, tg in t["targets"] if (tg == bb or f.dominates(tg, bb)) and set(f.pred[tg]) & f.reachable() == {sb}]
+                via_else = t["otherwise"] == bb or f.dominates(t["otherwise"], bb)
+                if vals and not via_else and all(v < 128 for v in vals):
+                    matched.append(sb)
+            if ascii_test and k == 1:
+                rep.ok(rule, key, "%s advances by 1 under an is_ascii test of the character" % f.short, loc)
+            elif k == len(nexts) and len(matched) >= k - 1:
+                rep.ok(rule, key, "%s advances by %d after consuming %d characters matched against ASCII constants" % (f.short, k, k), loc)
+            else:
+                rep.fail(rule, key, "%s advances a cursor offset by the constant %d, but %d character(s) were consumed and %d matched "
+                         "against ASCII constants on the way: for a multi-byte character the span ends inside it, and "
+                         "Token::span slices the source off a character boundary (panic)" % (f.short, k, len(nexts), len(matched)), loc)
+    rep.floor(rule, "offset advances in the scanner", n, 10)
+
+
+def r11h(ctx, rep, rule="R11h"):
+    """token spans are offsets into the text the caller passed"""
+    from .. import shapes
+    facts = ctx["facts"]
+    rep.rule(rule, "token spans index the caller's text: lex::scan returns byte offsets that every consumer (Token::span, "
+             "parse, parse_text's remaining-text computation, the front ends) applies to the string it handed in, so the "
+             "CharIndices cursor must be created over exactly that argument — not over a trimmed or otherwise derived "
+             "slice, whose offsets are shifted against the original.")
+    f = need(rep, rule, facts, "marwood::lex::scan")
+    if f is None:
+        return
+    sites = [(bb, t) for bb, t in f.calls() if (callee(t) or "").endswith("<impl str>::char_indices")]
+    if not sites:
+        rep.anchor_lost(rule, "lex::scan creates no char_indices cursor")
+        return
+    for i, (bb, t) in enumerate(sites):
+        sh = shapes.shape(f, t["args"][0], 4)
+        key = "%s|scan|cursor#%d" % (rule, i + 1)
+        if sh == "a1":
+            rep.ok(rule, key, "lex::scan iterates over its text argument itself", [t["loc"]])
+        else:
+            rep.fail(rule, key, "lex::scan iterates over %s instead of the text it was given: the spans it returns are offsets "
+                     "into that derived slice, but callers slice the original text with them (shifted tokens; a span inside a "
+                     "multi-byte character panics)" % sh[:120], [t["loc"]])
+
+
 def run(ctx, rep):
     r11a(ctx, rep)
     r11b(ctx, rep)
@@ -199,6 +293,8 @@ def run(ctx, rep):
     C06.r06a_restricted(ctx, rep, "R11p", ["marwood::lex::", "marwood::parse::", "marwood::number::Number::parse"],
                         "the reader is total", 30)
     r11e(ctx, rep)
+    r11g(ctx, rep)
+    r11h(ctx, rep)
     from . import units
     units.r15a(ctx, rep, rule="R11d", scope=("marwood::lex::", "marwood::parse::", "marwood::syntax::"))
     rep.rules["R11d"] = "span units: " + rep.rules["R11d"]
